@@ -5,9 +5,10 @@
 . "$(dirname "${BASH_SOURCE[0]}")/env.sh"
 cd "$VERIF_ROOT" || exit 2
 "$VERIF_ROOT/scripts/build.sh" || exit 2
+BIN="${DST_BIN:-$VERIF_ROOT/dst/bin/dst}"
 if [ "${1:-}" = "--replay" ]; then
-  exec "$VERIF_ROOT/dst/bin/dst" replay "$2"
+  exec "$BIN" replay "$2"
 fi
 prop="$1"; tier="${2:-quick}"
 if [ "$prop" = C16 ]; then "$VERIF_ROOT/scripts/build.sh" race || exit 2; fi
-exec "$VERIF_ROOT/dst/bin/dst" check -prop "$prop" -tier "$tier"
+exec "$BIN" check -prop "$prop" -tier "$tier"
